@@ -34,7 +34,7 @@ META = {
     "explanation": (
         "R1 (pass-through and gate): every return of html_to_nodes is either the pass-through constructor applied to the "
         "(optionally GFM-filtered) `text` parameter itself - never a re-rendering of the parsed tree or an edited string - or "
-        "lies behind the convertibility gate; the constructor puts its text parameter unchanged into exactly one "
+        "lies behind the convertibility gate (a parameterless local closure that returns the pass-through call stands for it); the constructor puts its text parameter unchanged into exactly one "
         "nodes.raw(format='html'). The gate is recognised by what it decides per top-level element (an `if [.. or] not all(...)` "
         "test, or a loop with `continue`/pass-through return; predicates in small helper functions are inlined, the condition is "
         "brought to DNF): each alternative pairs an extension flag with its own tag (html_image/img, html_admonition/div + class "
@@ -48,8 +48,9 @@ META = {
         "applied to the fragment root only, non-recursively: inside a converted element white-space text is content; both html "
         "handlers hand token.content to html_to_nodes and attach all returned nodes. "
         "R2 (GFM filter): the finite language of the filter regex (enumerated from the re._parser tree) is exactly '<' ['/'] tag "
-        "for the nine tags of GFM 6.11, case-insensitive, with a tag-name-terminator look-ahead covering all HTML terminators and "
-        "no name character; the replacement removes '<'; no count limit; conditional on gfm_only alone; it dominates every use "
+        "for the nine tags of GFM 6.11, case-insensitive, with a tag-name-terminator look-ahead (read as a set of strings) that accepts "
+        "every HTML tag-name terminator unconditionally - a terminator accepted only with a continuation, e.g. '/' only as '/>', "
+        "is a violation - and no name character; the replacement removes '<'; no count limit; conditional on gfm_only alone; it dominates every use "
         "of the filtered text and every return; when the filtered text is kept in a second variable, the unfiltered parameter is "
         "never handed to the pass-through constructor. "
         "R3: attribute whitelists that feed a directive's option block (followed through helper parameters) are subsets of that "
@@ -537,6 +538,22 @@ def _find_gate(cx: Ctx, pt_returns) -> dict:
     return found[0]
 
 
+def _inline_closure(cx: Ctx, e: ast.expr):
+    if not (isinstance(e, ast.Call) and isinstance(e.func, ast.Name) and not e.args and not e.keywords):
+        return None
+    fn = cx.mod.functions.get(f"{cx.fi.qualname}.{e.func.id}")
+    if fn is None or fn.is_lambda or fn.params:
+        return None
+    if sum(1 for x in cx.fi.node.body for y in ast.walk(x) if isinstance(y, (ast.FunctionDef, ast.AsyncFunctionDef)) and y.name == e.func.id) != 1:
+        raise Unsupported(f"local function {e.func.id} is defined more than once")
+    body = [st for st in fn.node.body if not (isinstance(st, ast.Expr) and isinstance(st.value, ast.Constant))]
+    if len(body) != 1 or not isinstance(body[0], ast.Return) or body[0].value is None:
+        return None
+    if any(isinstance(x, (ast.Nonlocal, ast.Global)) for x in ast.walk(fn.node)) or any(isinstance(x, ast.Name) and isinstance(x.ctx, ast.Store) for x in ast.walk(body[0])):
+        raise Unsupported(f"local function {e.func.id} rebinds variables")
+    return body[0].value
+
+
 def _split_add(e: ast.expr) -> list[ast.expr]:
     if isinstance(e, ast.BinOp) and isinstance(e.op, ast.Add):
         return _split_add(e.left) + _split_add(e.right)
@@ -592,7 +609,12 @@ def r1_pass_through(corpus: Corpus, rep: Report, tier: str):
     for r in returns:
         if r.value is None:
             raise Unsupported("bare return in html_to_nodes")
-        parts = _split_add(r.value)
+        parts = []
+        for p0 in _split_add(r.value):
+            # a parameterless local closure `def _default(): return default_html(text, ...)` stands for its return value
+            # (free variables are read when it is called, i.e. at this return)
+            inl = _inline_closure(cx, p0)
+            parts.extend(_split_add(inl) if inl is not None else [p0])
         pt_calls = []
         for p_ in parts:
             if isinstance(p_, ast.Call) and dotted(p_.func):
@@ -1318,7 +1340,7 @@ def _lang(items, limit: int = 2000) -> set[str]:
             part = {chr(av)}
         elif op is _C.IN:
             part = _charset(av)
-            if len(part) > 8:
+            if len(part) > 16:
                 raise Unsupported("large character class inside the tag alternation")
         elif op is _C.SUBPATTERN:
             part = _lang(av[3], limit)
@@ -1345,8 +1367,8 @@ def _lang(items, limit: int = 2000) -> set[str]:
     return res
 
 
-def _lookahead_set(av) -> tuple[set[str], bool]:
-    """(characters accepted after the tag name, end-of-input accepted)"""
+def _lookahead_set(av) -> tuple[set[str], set[str], bool]:
+    """(characters accepted directly after the tag name, longer look-ahead strings, end-of-input accepted)"""
     direction, sub = av
     if direction != 1:
         raise Unsupported("look-behind at the end of the GFM filter regex")
@@ -1355,20 +1377,23 @@ def _lookahead_set(av) -> tuple[set[str], bool]:
     if len(items) == 1 and items[0][0] is _C.BRANCH:
         alts = [list(a) for a in items[0][1][1]]
     chars: set[str] = set()
+    longer: set[str] = set()
     at_end = False
     for alt in alts:
-        if len(alt) != 1:
-            raise Unsupported("look-ahead alternative is not a single item")
-        op, a = alt[0]
-        if op is _C.IN:
-            chars |= _charset(a)
-        elif op is _C.LITERAL:
-            chars.add(chr(a))
-        elif op is _C.AT and str(a) in ("AT_END", "AT_END_STRING"):
+        if len(alt) == 1 and alt[0][0] is _C.AT and str(alt[0][1]) in ("AT_END", "AT_END_STRING"):
             at_end = True
-        else:
-            raise Unsupported(f"look-ahead item {op}")
-    return chars, at_end
+            continue
+        if len(alt) == 1 and alt[0][0] is _C.IN:
+            chars |= _charset(alt[0][1])  # may be large (e.g. a negated class): judged as a set
+            continue
+        for s_ in _lang(alt):
+            if len(s_) == 1:
+                chars.add(s_)
+            elif s_:
+                longer.add(s_)
+            else:
+                raise Unsupported("look-ahead alternative that matches the empty string")
+    return chars, longer, at_end
 
 
 def _regex_flags(mod: Module, compile_call: ast.Call) -> int:
@@ -1480,10 +1505,13 @@ def r2_gfm_filter(corpus: Corpus, rep: Report, tier: str):
     if look is None:
         rep.violation("C17.R2", k, rx_site, "no look-ahead after the tag name: `<titles>` / `<style-x>` (other elements) are rewritten too")
     else:
-        chars, at_end = _lookahead_set(look[1])
+        chars, longer, at_end = _lookahead_set(look[1])
         miss = TAG_NAME_END - chars
-        namec = chars & TAG_NAME_CHARS
-        if miss:
+        namec = (chars | {s_[0] for s_ in longer}) & TAG_NAME_CHARS
+        cond = sorted(s_ for s_ in longer if s_[0] in miss)
+        if miss and cond and not (miss - {s_[0] for s_ in cond}):
+            rep.violation("C17.R2", k, rx_site, f"a disallowed tag whose name is followed by {sorted(miss)!r} is only neutralised when the text continues with {cond!r}: the HTML tokenizer ends the tag name at that character whatever follows (`<script/src=x>` is a script start tag, the stray '/' is ignored), so such occurrences still open the element")
+        elif miss:
             rep.violation("C17.R2", k, rx_site, f"a disallowed tag whose name is followed by {sorted(miss)!r} is not neutralised although it opens the element")
         elif namec:
             rep.violation("C17.R2", k, rx_site, f"look-ahead accepts tag-name characters {sorted(namec)!r}: longer (allowed) tag names are rewritten")
@@ -2632,6 +2660,7 @@ def mutants(corpus: Corpus):
         add("c17-gfm-tag-misspelt", "C17.R2", splice(src, pat, pat_src.replace("noframes", "noframe")), "tag set")
         add("c17-gfm-closing-form-dropped", "C17.R2", splice(src, pat, pat_src.replace("(\\/?)", "()")), "closing form")
         add("c17-gfm-lookahead-narrowed", "C17.R2", splice(src, pat, pat_src.replace("\\t\\n\\f\\r ", " ")), "terminator")
+        add("c17-gfm-slash-only-before-gt", "C17.R2", splice(src, pat, pat_src.replace(" />])", " >]|/>)")), "terminator", note="seed class: '/' accepted only as '/>'")
         add("c17-gfm-lookahead-dropped", "C17.R2", splice(src, pat, pat_src[: pat_src.index("(?=")] + pat_src[-1]), "terminator")
         if len(flt.compile_call.args) > 1:
             add("c17-gfm-case-sensitive", "C17.R2", splice(src, flt.compile_call, f"re.compile({pat_src})"), "case-insensitive")
